@@ -73,6 +73,7 @@ def run(ctx: Ctx) -> None:
     rng = random.Random(ctx.seed * 7919 + 18)
     from props import lookupmodel as lm
     scs = [lf.gen_lookup(rng, 'c18-%d' % k, ctx.thorough) for k in range(ctx.pick(1500, 20000))]
+    scs += [lf.gen_hostile(rng, 'c18h-%d' % k) for k in range(ctx.pick(24, 200))]
     # binding 1: the implementation-shaped lookup model against ReturnBy / SuccessIff / CacheFirst / QuThenQm, exhaustively
     info = lm.check_models(ctx)
     ctx.log('Lookup model: %d distinct states, contract invariants hold; strict QM spacing reaches the schedule of finding D15'
